@@ -187,7 +187,7 @@ theorem numBound_enc (ext : Ext) (pf : Model.ParseFloat) (hpf : Spec.ParseFloatO
     simp only [List.append_assoc] at hst ⊢
     rw [hst]
     simp only [ok_bind]
-    have hr := Rows.readVarlena_long ((p.length + 4) * 4) p rest (Or.inl rfl) (by omega)
+    have hr := Rows.readVarlena_long ((p.length + 4) * 4) p rest rfl (by omega)
     have := numBoundAt_ok ext (a ++ zeros ((4 - a.length % 4) % 4)) (le 4 ((p.length + 4) * 4) ++ p) rest fb p g
       (p.length + 4) (by simp only [List.length_append, le_length]; omega) (by omega)
       (by simpa [List.append_assoc] using hr) hd' hg
